@@ -17,7 +17,13 @@ RULE = ('real TransmissionModel (compact and inflated atmospheres: top at 0.01..
         'off the native ones / the mid-points) and a cloud deck whose top is exactly on / one ulp above / one ulp below a layer pressure, '
         'on a level, outside the grid; for every case the absorption cross-section on the grid of the run is rebuilt from the molecules\' '
         'own tables by the Lean model (AbsorptionGrid.absSigma) and the cloud deck is tau = inf for P >= P0 (Haze.cloudSigma), compared '
-        'with the prepared contributions, and the documented integral is evaluated with them. distinct non-trivial = distinct '
+        'with the prepared contributions, and the documented integral is evaluated with them; one case in ten has abundance '
+        'profiles that are EXACTLY zero in some layers and not in others (zero aloft / below / in one layer / in scattered layers) '
+        'for an absorbing trace gas and for an added scatter-only gas (N2 / O2) at 5-40 %, with Rayleigh scattering present, '
+        'wavenumbers 5000-30000 cm-1 and a surface pressure of 1e5-1e7 Pa; the Rayleigh and CIA cross-sections are rebuilt '
+        'from the per-molecule laws / per-pair tables and the abundances of each layer by the Lean model '
+        '(AbsorptionGrid.scaledSigma / ciaSigma), compared with the prepared contributions, and enter the documented integral. '
+        'distinct non-trivial = distinct '
         '(layers, contribution multiset, regime, method) with at least one column neither transparent nor saturated')
 USES_MODELS = ['C19']
 ASSUMPTIONS = ['3-D line/sphere geometry (taurex/util/geometry.py): modelled step by step (Geometry.lean), proved equal to '
@@ -33,7 +39,11 @@ ASSUMPTIONS = ['3-D line/sphere geometry (taurex/util/geometry.py): modelled ste
                'of the run is rebuilt from each molecule\'s values on its OWN wavenumber grid (compute_opacity at the layer\'s '
                '(T, P): C04; mixing ratios: C10) by the Lean model AbsorptionGrid.absSigma (own points selected, other points '
                'interpolated between the bracketing native points), and the cloud deck is tau = inf for P >= P0 (Haze.cloudSigma, '
-               'driver of C19); the documented integral is evaluated with these',
+               'driver of C19); the Rayleigh cross-section is sum over ALL molecules of the atmosphere that have a Rayleigh law '
+               '(taurex.util.scattering.rayleigh_sigma_from_name: given) of law(wn) x abundance in the layer, the CIA '
+               'cross-section sum over the pairs of cia(T_l, wn) (the cache object\'s value: given) x both partners\' abundances in '
+               'the layer (AbsorptionGrid.scaledSigma / ciaSigma); abundances are the rows of the chemistry\'s published '
+               'activeGasMixProfile / inactiveGasMixProfile; the documented integral is evaluated with these',
                'licensed deviation: a layer row may differ from the uncut integral only if every wavenumber of the row '
                'is below exp(-10) and not below the uncut transmittance']
 
@@ -260,6 +270,58 @@ def regrid(rng, spec, cls):
     return spec
 
 
+ZERO_PATTERNS = ['zero-aloft', 'zero-below', 'zero-in-one-layer', 'zero-aloft', 'zero-in-scattered-layers']
+SCATTER_ONLY = ['N2', 'O2']          # molecules with a Rayleigh law and no opacity table in these runs: never active
+
+
+def zero_mask(rng, nl, pattern):
+    z = np.zeros(nl, bool)
+    if nl < 2:
+        return z
+    if pattern == 'zero-aloft':
+        z[int(rng.integers(1, nl)):] = True
+    elif pattern == 'zero-below':
+        z[:int(rng.integers(1, nl))] = True
+    elif pattern == 'zero-in-one-layer':
+        z[int(rng.integers(0, nl))] = True
+    else:
+        z = rng.random(nl) < 0.4
+        z[int(rng.integers(0, nl))] = True
+        z[(int(np.argmax(z)) + 1) % nl] = False
+    return z
+
+
+def visible_scattering(rng, spec):
+    """move the run to where Rayleigh scattering has an optical depth that matters: wavenumbers 5000-30000 cm-1 (2 - 0.33
+    micron) and a surface pressure of 1e5..1e7 Pa (both limits of the pressure range scaled by one factor, so the extent of
+    the atmosphere is unchanged)"""
+    wn = np.asarray(spec['opacities'][0]['wn'], float)
+    new = np.sort(rng.choice(np.arange(5000.0, 30000.0, 7.0), size=len(wn), replace=False)) + float(rng.random())
+    for o in spec['opacities']:
+        o['wn'] = new.copy()
+    f = float(10 ** rng.uniform(5, 7)) / spec['pmax']
+    spec['pmin'], spec['pmax'] = spec['pmin'] * f, spec['pmax'] * f
+    if spec['temperature'].get('pressure_points'):
+        spec['temperature']['pressure_points'] = [float(x) * f for x in spec['temperature']['pressure_points']]
+    return spec
+
+
+def zero_profiles(rng, spec, pattern):
+    """give the atmosphere of `spec` species whose abundance is exactly zero in some layers: one of the absorbing trace gases
+    and an added scatter-only gas (N2 / O2: Rayleigh law, no table), both with substantial abundance where present"""
+    nl = spec['nlayers']
+    g = spec['gases'][int(rng.integers(0, len(spec['gases'])))]
+    prof = 10 ** rng.uniform(-4, -1.5, size=nl)
+    prof[zero_mask(rng, nl, pattern)] = 0.0
+    g['type'], g['mix'] = 'array', prof
+    mol = SCATTER_ONLY[int(rng.integers(0, len(SCATTER_ONLY)))]
+    prof2 = rng.uniform(0.05, 0.4, size=nl)
+    prof2[zero_mask(rng, nl, pattern)] = 0.0
+    spec['gases'].append(dict(mol=mol, type='array', mix=prof2))
+    spec['zero_layers_class'] = pattern
+    return spec
+
+
 def gen_case(rng, k):
     regime = ['zero', 'thin', 'mid', 'thick'][k % 4]
     nl = int(rng.integers(2, 41)) if rng.random() < 0.8 else int(rng.integers(2, 5))
@@ -267,18 +329,31 @@ def gen_case(rng, k):
     ext = bool((k // 8) % 3 == 2)
     # quota (one case in ten): molecules tabulated on wavenumber grids of their OWN (not sub-samples of one another)
     own_grids = k % 10 == 3
+    zero_layers = k % 10 == 5
     if own_grids:
         regime = ['thin', 'mid', 'thick'][(k // 10) % 3]
         spec = FM.gen_spec(rng, nlayers=nl, nwn=int(rng.integers(3, 9)), ngas=int(rng.integers(2, 5)), regime=regime,
                            same_grid=True, extended=ext)
         spec = regrid(rng, spec, GRID_CLASSES[(k // 10) % 4])
+    elif zero_layers:
+        # (the tables are at most of the order of the scattering: a saturated molecular band would hide it)
+        regime = ['thin', 'zero', 'mid', 'thin'][(k // 10) % 4]
+        spec = FM.gen_spec(rng, nlayers=max(nl, 3), regime=regime, same_grid=True, extended=ext)
+        visible_scattering(rng, spec)
     else:
         spec = FM.gen_spec(rng, nlayers=nl, regime=regime, same_grid=bool(rng.random() < 0.8), extended=ext)
     spec['new_path_method'] = bool((k // 4) % 2) or (ext and bool(rng.random() < 0.5))
+    # quota (one case in ten): abundance profiles that are EXACTLY zero in some layers and not in others (a species confined
+    # below a cold trap, a chemistry table with zeros aloft, a detached layer), for absorbing molecules and for molecules
+    # that only scatter; Rayleigh scattering is then always among the contributions
+    if zero_layers:
+        zero_profiles(rng, spec, ZERO_PATTERNS[(k // 10) % len(ZERO_PATTERNS)])
     cs = []
     if rng.random() < 0.9:
         cs.append(dict(type='absorption'))
     extra = [c for c in CONTRIB_CHOICES if rng.random() < 0.3]
+    if zero_layers:
+        extra = [c for c in extra if c != 'rayleigh'] + ['rayleigh']
     # quota (one case in ten): a grey cloud deck whose top is placed relative to the LAYER pressures of the atmosphere
     deck = k % 10 == 7
     if own_grids and 'absorption' not in [c['type'] for c in cs]:
@@ -286,7 +361,8 @@ def gen_case(rng, k):
     if deck:
         extra = [c for c in extra if c != 'clouds'] + ['clouds']
     if regime == 'zero':
-        extra = [c for c in extra if c == 'cia' or (deck and c == 'clouds')]      # nothing (but the deck) absorbs: zero tables only
+        # nothing (but the deck / the Rayleigh scattering of the zero-layer quota) absorbs: zero tables only
+        extra = [c for c in extra if c == 'cia' or (deck and c == 'clouds') or (zero_layers and c == 'rayleigh')]
     for c in extra:
         if c == 'cia':
             if spec['cia']:
@@ -344,7 +420,7 @@ def small(spec):
                 contributions=[c['type'] for c in spec['contributions']], temperature=spec['temperature']['type'],
                 ngas=len(spec['gases']), pmin=spec['pmin'], pmax=spec['pmax'], planet_radius=spec['planet_radius'],
                 planet_mass=spec['planet_mass'], star_radius=spec['star_radius'], grid_class=spec.get('grid_class'),
-                cloud_top_class=spec.get('cloud_top_class'))
+                cloud_top_class=spec.get('cloud_top_class'), zero_layers_class=spec.get('zero_layers_class'))
 
 
 def trans_close(a, b, rel=1e-9):
@@ -420,7 +496,68 @@ def documented_sigmas(ctx, m, spec, wn, p, contribs, case):
                                             model_opaque=(P >= p0), position=i))
             out[i] = (contribs[i][0], doc)
             cloud_model = (mtr, mdepth, P >= p0)
+        elif name == 'RayleighContribution':
+            # every molecule of the atmosphere (absorbing or not) that has a Rayleigh law, weighted LAYER BY LAYER with its
+            # abundance: sum_mol law_mol(wn) * mix_mol[l] (AbsorptionGrid.scaledSigma)
+            from taurex.util.scattering import rayleigh_sigma_from_name
+            mols = []
+            for g in list(m.chemistry.activeGases) + list(m.chemistry.inactiveGases):
+                law = rayleigh_sigma_from_name(g, wn)
+                if law is not None:
+                    mols.append((str(g), np.asarray(law, float), chem_mix(m.chemistry, g)))
+            d = ctx.model().call('c01.scaledsigma', C.N(n), C.N(len(wn)), C.LL([x[1] for x in mols]),
+                                 C.LL([x[2] for x in mols]))
+            doc = np.array(d.list(lambda: d.list()), float).reshape(n, len(wn))
+            for _, _, mx in mols:
+                ctx.bucket('rayleigh-gas-profile:' + zero_pattern(mx))
+            ctx.disagreements_checked += 1
+            sc = float(np.max(np.abs(doc))) if doc.size else 0.0
+            if contribs[i][1].shape != doc.shape or not C.close(np.ravel(contribs[i][1]), np.ravel(doc), rel=1e-9,
+                                                               abs_=1e-15 * sc):
+                ctx.mismatch('RayleighContribution.sigma_xsec vs AbsorptionGrid.scaledSigma (law x abundance of the layer)',
+                             case, dict(impl=contribs[i][1][:, :1], model=doc[:, :1], molecules=[x[0] for x in mols],
+                                        profiles=[zero_pattern(x[2]) for x in mols]))
+            out[i] = (contribs[i][0], doc)
+        elif name == 'CIAContribution' and len(c.ciaPairs) > 0:
+            from taurex.cache import CIACache
+            pairs = [str(pr) for pr in c.ciaPairs]
+            xs = [[np.asarray(CIACache()[pr].cia(float(t), wn), float) for t in p['T']] for pr in pairs]
+            m1 = [chem_mix(m.chemistry, pr.split('-')[0]) for pr in pairs]
+            m2 = [chem_mix(m.chemistry, pr.split('-')[1]) for pr in pairs]
+            d = ctx.model().call('c01.ciasigma', C.N(n), C.N(len(wn)), C.LLL(xs), C.LL(m1), C.LL(m2))
+            doc = np.array(d.list(lambda: d.list()), float).reshape(n, len(wn))
+            ctx.bucket('cia-sigma-rebuilt')
+            ctx.disagreements_checked += 1
+            sc = float(np.max(np.abs(doc))) if doc.size else 0.0
+            if contribs[i][1].shape != doc.shape or not C.close(np.ravel(contribs[i][1]), np.ravel(doc), rel=1e-9,
+                                                               abs_=1e-15 * sc):
+                ctx.mismatch('CIAContribution.sigma_xsec vs AbsorptionGrid.ciaSigma (pair cross-section x both abundances '
+                             'of the layer)', case, dict(impl=contribs[i][1][:, :1], model=doc[:, :1], pairs=pairs))
+            out[i] = (contribs[i][0], doc)
     return out, cloud_model
+
+
+def chem_mix(chem, gas):
+    """mixing ratio of `gas` per layer as the atmosphere holds it: the row of the chemistry's published
+    activeGasMixProfile / inactiveGasMixProfile tables"""
+    act, ina = [str(x) for x in chem.activeGases], [str(x) for x in chem.inactiveGases]
+    if gas in act:
+        return np.array(chem.activeGasMixProfile[act.index(gas)], float)
+    return np.array(chem.inactiveGasMixProfile[ina.index(gas)], float)
+
+
+def zero_pattern(mix):
+    """class of an abundance profile by where it is EXACTLY zero"""
+    z = np.asarray(mix) == 0.0
+    if not z.any():
+        return 'nowhere-zero'
+    if z.all():
+        return 'zero-everywhere'
+    if not z[0] and z[-1] and np.all(np.diff(z.astype(int)) >= 0):
+        return 'zero-aloft'
+    if z[0] and not z[-1] and np.all(np.diff(z.astype(int)) <= 0):
+        return 'zero-below'
+    return 'zero-in-scattered-layers' if z.sum() > 1 else 'zero-in-one-layer'
 
 
 def run_real(spec):
@@ -721,6 +858,8 @@ def judge(ctx, case, spec, m, obs, do_scale, stream):
         ctx.bucket('quota:own-wavenumber-grids:' + spec['grid_class'])
     if spec.get('cloud_top_class'):
         ctx.bucket('quota:cloud-top:' + spec['cloud_top_class'])
+    if spec.get('zero_layers_class'):
+        ctx.bucket('quota:abundance-zero-in-some-layers:' + spec['zero_layers_class'])
     if np.any(trans <= E10) and np.any(trans > 0.5):
         ctx.bucket('mixed-saturated-and-clear')
 
